@@ -233,6 +233,8 @@ def enum_shards(tier, seed):
                     continue
                 out.append({'family': 'enum', 'kind': kind, 'fallible': fallible, 'variant': variant})
         out.append({'family': 'enum', 'kind': kind, 'fallible': kind.startswith('Ref'), 'variant': 'plainB', 'with_d': True})
+        for fallible in (False, True):
+            out.append({'family': 'enum', 'kind': kind, 'fallible': fallible, 'variant': 'fieldnames'})
     return out
 
 
@@ -254,13 +256,22 @@ def make_enum(sh):
             v1 = Member('B', shape='tuple', fields=[Member(None, instrs=[MapInstr('map', member=Ch('f0m', [None, ('n', 'fz'), ('i', 1)]), action=Ch('f0a', [None, '__f0(~, @)']), tag='f0')]), Member(None, instrs=[MapInstr('map', member=Ch('f1m', [None, ('n', 'fy'), ('i', 0)]), tag='f1')])],
                         instrs=[SimpleInstr('type_hint', Ch('v1h', ['Unspecified', 'Struct', 'Tuple', 'Unit']), ded=Ch('v1hd', [None, 'X']))])
             v2 = Member('C', shape='named', fields=[Member('x', instrs=[GhostInstr(Ch('f1g', ['ghost', 'ghost_owned', 'ghost_ref']), action=Ch('f1a', [None, '__g(@)']), tag='fg')]), Member('y', instrs=[MapInstr('map', member=Ch('f2m', [None, ('n', 'yy'), ('i', 0)]), tag='f2')])],
-                        instrs=[SimpleInstr('type_hint', Ch('v2h', ['Unspecified', 'Struct', 'Tuple', 'Unit']))])
+                        instrs=[SimpleInstr('type_hint', Ch('v2h', ['Unspecified', 'Struct', 'Tuple', 'Unit']))])      # f2n: fallible-only names on a payload field (they apply to the Try kinds only)
             v3 = Member('D', shape='tuple', fields=[Member(None, instrs=[GhostInstr(Ch('d0g', ['ghost', 'ghost_owned']), action=Ch('d0a', ['__gd(@)', None]), tag='gd')]),
                                                     Member(None, instrs=[MapInstr('map', member=Ch('d1m', [('n', 'd1'), None]), tag='d1')]), Member(None, instrs=[MapInstr('map', member=('n', 'd2'), action=Ch('d2a', [None, '__d2(~)']), tag='d2')])],
                         instrs=[SimpleInstr('type_hint', Ch('v3h', ['Struct', 'Unspecified']))])
             if sh.get('with_d'):
                 return Spec('enum', traits=[t1], members=[v3, v2])
             return Spec('enum', traits=[t1], members=[v1, v2])
+        if variant == 'fieldnames':
+            # payload fields WITHOUT ghost neighbours whose instruction name ranges over direction- and fallibility-specific names
+            t1 = TraitInstr(tn, 'X', err=err, tag='t1')
+            names = ['map', 'from', 'into', 'try_from', 'try_into', 'try_map', 'from_ref', 'ref_into']
+            v1 = Member('C', shape='named', fields=[Member('x'), Member('y', instrs=[MapInstr(Ch('g2n', names), member=Ch('g2m', [('n', 'yy'), None]), action=Ch('g2a', [None, '__f(~)']), tag='g2')])],
+                        instrs=[SimpleInstr('type_hint', Ch('w1h', ['Unspecified', 'Struct', 'Tuple']))])
+            v2 = Member('T', shape='tuple', fields=[Member(None), Member(None, instrs=[MapInstr(Ch('g3n', names), member=Ch('g3m', [('i', 0), ('n', 'tt'), None]), tag='g3')])],
+                        instrs=[SimpleInstr('type_hint', Ch('w2h', ['Unspecified', 'Struct', 'Tuple']))])
+            return Spec('enum', traits=[t1], members=[Member('A', shape='unit'), v1, v2])
         if variant == 'litpat':
             t1 = TraitInstr(tn, 'i32', err=err, default_case=Ch('td', [None, '=> __dflt(@)']), tag='t1')
             t2 = TraitInstr(tn, 'Y', err=err, tag='t2')
